@@ -26,6 +26,8 @@ expression of the statement:
 * `modsConflict`: a keyword modifier together with a binding of the same id
   (`call local X() using (local = false,)`): the compiler rejects it
   (`ConflictingModifiers`), the formatter prints the binding only (F41).
+* `findMod`, `modValue`, `modFlags`, `modDisabled`: what `Modifiers.compile` computes from the
+  modifiers of a call (kept by `normMods`: Proofs/FormatCallRangeMods.lean).
 
 Core Lean only.
 -/
@@ -154,19 +156,23 @@ def modsConflict (m : Mods) : Bool :=
   (m.loc && hasId sLocal m.binds) || (m.pre && hasId sPreflight m.binds) ||
     (m.vol && hasId sVolatile m.binds)
 
-/-- the value of the boolean modifier `k` after `Modifiers.compile` (which succeeds when there is
-no conflict and no duplicate): the binding's value if there is one, else the keyword -/
-def modValue (k : Bytes) (kw : Bool) : List (Bytes × Exp) → Bool
-  | [] => kw
-  | (k', v) :: r => if k' = k then (match v with | .bool b => b | _ => kw) else modValue k kw r
+/-- `Bindings.Table[k]` of the `using` block (for distinct ids: the binding with id `k`) -/
+def findMod (k : Bytes) : List (Bytes × Exp) → Option Exp
+  | [] => none
+  | kv :: r => if kv.1 = k then some kv.2 else findMod k r
+
+/-- the value of the boolean modifier `k` after `Modifiers.compile` (`mods.X = binding.Value` when
+the block binds `k`, else the keyword; the grammar only allows boolean literals there) -/
+def modValue (k : Bytes) (kw : Bool) (l : List (Bytes × Exp)) : Bool :=
+  match findMod k l with
+  | some v => (match v with | .bool b => b | _ => false)
+  | none => kw
 
 /-- (`Local`, `Preflight`, `Volatile`) after `Modifiers.compile` -/
 def modFlags (m : Mods) : Bool × Bool × Bool :=
   (modValue sLocal m.loc m.binds, modValue sPreflight m.pre m.binds, modValue sVolatile m.vol m.binds)
 
-/-- the `disabled` binding, if any (the first) -/
-def modDisabled : List (Bytes × Exp) → Option Exp
-  | [] => none
-  | (k, v) :: r => if k = sDisabled then some v else modDisabled r
+/-- the `disabled` binding, if any -/
+def modDisabled (m : Mods) : Option Exp := findMod sDisabled m.binds
 
 end Martian.FormatCallText
